@@ -7,6 +7,8 @@ for f in sorted(glob.glob(os.path.join(os.path.dirname(__file__), "..", "seeded"
     name = os.path.basename(os.path.dirname(f))
     c = d.get("confirmed", {})
     res = ", ".join(f"{k} {v['result'].lower()}" for k, v in c.get("checks", {}).items())
+    if d.get("retired"):
+        res = "retired: no longer breaks the property on the repaired tree"
     note = c.get("note", "")
     first = "at once" if not note else "after strengthening (see meta.json)"
     needs = " ".join(d.get("needs", "").split())[:140].replace("|", "\\|")
